@@ -70,6 +70,7 @@ class Block:
         self.entry = []
         self.attrs = []
         self.stmts = {}
+        self.exit = []
         self.loopstart = {}
         self.loopend = {}       # anchors of statements to drop (logged)
 
@@ -163,6 +164,8 @@ def parse_template(path):
                 cur.loop_optional.add(n)
         elif word == 'entry':
             section = cur.entry
+        elif word == 'exit':
+            section = cur.exit
         elif word == 'stmt':
             section = cur.stmts.setdefault(int(rest.split()[0]), [])
         elif word == 'loopstart':
@@ -449,6 +452,9 @@ def extract_fn(repo, blk, meta, mode):
             add_insert(a1 + 1, lines, 'proof')
     if blk.entry:
         add_insert(1, blk.entry, 'proof')
+    if blk.exit:
+        # after the last statement of the body (functions whose body ends in a statement, not in a tail expression)
+        add_insert(len(body) - 1, blk.exit, 'proof')
     if blk.stmts:
         # top-level statements of the body: list of start token indices
         starts = []
